@@ -558,3 +558,103 @@ Proof.
     intros [|[|i]] [|[|j]] Hi Hj; try lia; apply QcS_eqb; vm_compute; reflexivity.
   - vm_compute. reflexivity.
 Qed.
+
+(* ====================================================================================== *)
+(* A6, reuse of ONE QR object (models QrObj.v, proofs QrObjProofs.v).  Every data member of detail::QR
+   (the pointer r into the caller's array; the vectors tau, f, q that are resize()d and never cleared; the
+   shape stored by factorize) is a field of [qr_obj], which every member function receives and returns.
+   tools/props/C16.py (qrseq) runs sequences of compute / factorize / solve calls of different shapes and
+   storage orders on one QR<vq::Q> / QR<double> object against these functions and against fresh objects. *)
+From Amgcl Require Import QrObj QrObjProofs.
+
+(* solve(..., computed = false) on an object in ANY state returns what the single-call model Qr.qr_solve
+   returns: the theorems C16_qr_solve_* (least squares / minimum norm) hold for every call of a sequence *)
+Theorem C16_qr_solve_any_object (S : Scalar) rows cols rs cs (A b : vec S) (o : @qr_obj S) :
+  rows <= length b ->
+  fst (fst (obj_solve rows cols rs cs A b false o)) = qr_solve rows cols rs cs A b.
+Proof. exact (obj_solve_eq_qr_solve rows cols rs cs A b o). Qed.
+Print Assumptions C16_qr_solve_any_object.
+
+(* the result of solve does not depend on the previous content of the object (tau, f, q, r, stored shape) *)
+Theorem C16_qr_solve_junk_independent (S : Scalar) rows cols rs cs (A b : vec S) (o o' : @qr_obj S) :
+  rows <= length b ->
+  fst (fst (obj_solve rows cols rs cs A b false o)) = fst (fst (obj_solve rows cols rs cs A b false o')).
+Proof. exact (obj_solve_junk_independent rows cols rs cs A b o o'). Qed.
+Print Assumptions C16_qr_solve_junk_independent.
+
+(* neither does the array handed back to the caller (R and the reflectors) *)
+Theorem C16_qr_solve_array_junk_independent (S : Scalar) rows cols rs cs (A b : vec S) (o o' : @qr_obj S) :
+  snd (fst (obj_solve rows cols rs cs A b false o)) = snd (fst (obj_solve rows cols rs cs A b false o')).
+Proof. exact (obj_solve_array_junk_independent rows cols rs cs A b o o'). Qed.
+Print Assumptions C16_qr_solve_array_junk_independent.
+
+(* solve(..., computed = true): the solution for the matrix whose factorisation the object holds, whatever
+   f and q hold and whatever array is passed; the factorisation is left there by a solve (any shape), by
+   compute / factorize (rows >= cols) or by the caller's own adjoint + transposed compute (rows < cols),
+   and further computed = true solves keep it *)
+Theorem C16_qr_solve_computed (S : Scalar) rows cols rs cs (A A2 b : vec S) (o : @qr_obj S) :
+  rows <= length b -> holds_factorisation o rows cols rs cs A ->
+  fst (fst (obj_solve rows cols rs cs A2 b true o)) = qr_solve rows cols rs cs A b.
+Proof. exact (obj_solve_computed rows cols rs cs A A2 b o). Qed.
+Print Assumptions C16_qr_solve_computed.
+
+Theorem C16_qr_factorisation_stored (S : Scalar) rows cols rs cs (A : vec S) (o : @qr_obj S) :
+  (forall b, 0 < Nat.min rows cols ->
+     holds_factorisation (snd (obj_solve rows cols rs cs A b false o)) rows cols rs cs A) /\
+  (0 < cols <= rows -> holds_factorisation (snd (obj_compute rows cols rs cs A o)) rows cols rs cs A) /\
+  (0 < cols <= rows -> holds_factorisation (snd (obj_factorize rows cols rs cs A o)) rows cols rs cs A) /\
+  (0 < rows < cols ->
+     holds_factorisation
+       (snd (obj_compute cols rows cs rs (map sadj (firstn (cols * rows) A) ++ skipn (cols * rows) A) o)) rows cols rs cs A) /\
+  (forall rows' cols' rs' cs' A2 b, holds_factorisation o rows cols rs cs A ->
+     holds_factorisation (snd (obj_solve rows' cols' rs' cs' A2 b true o)) rows cols rs cs A).
+Proof.
+  exact (conj (fun b H => obj_solve_holds rows cols rs cs A b o H)
+        (conj (obj_compute_holds rows cols rs cs A o)
+        (conj (obj_factorize_holds rows cols rs cs A o)
+        (conj (obj_compute_holds_wide rows cols rs cs A o)
+              (fun rows' cols' rs' cs' A2 b => obj_solve_computed_keeps rows cols rs cs rows' cols' rs' cs' A A2 b o))))).
+Qed.
+Print Assumptions C16_qr_factorisation_stored.
+
+(* a second right-hand side on the factorisation left by a first solve *)
+Theorem C16_qr_solve_again (S : Scalar) rows cols rs cs (A A2 b1 b2 : vec S) (o : @qr_obj S) :
+  0 < Nat.min rows cols -> rows <= length b2 ->
+  fst (fst (obj_solve rows cols rs cs A2 b2 true (snd (obj_solve rows cols rs cs A b1 false o)))) =
+  qr_solve rows cols rs cs A b2.
+Proof. exact (obj_solve_again rows cols rs cs A A2 b1 b2 o). Qed.
+Print Assumptions C16_qr_solve_again.
+
+(* factorize() on an object in any state: the array, R(i,j) and Q(i,j) (inside the m x n shape) are those of a
+   fresh object; the object model agrees with Qr.qr_factorize started from the resized old q *)
+Theorem C16_qr_factorize_any_object (S : Scalar) m n rs cs (A : vec S) (o o' : @qr_obj S) : 0 < Nat.min m n ->
+  fst (obj_factorize m n rs cs A o) = fst (obj_factorize m n rs cs A o') /\
+  (forall i j, obj_R (snd (obj_factorize m n rs cs A o)) i j = obj_R (snd (obj_factorize m n rs cs A o')) i j) /\
+  (forall i j, i < m -> j < n ->
+     obj_Q (snd (obj_factorize m n rs cs A o)) i j = obj_Q (snd (obj_factorize m n rs cs A o')) i j).
+Proof. exact (obj_factorize_junk_independent m n rs cs A o o'). Qed.
+Print Assumptions C16_qr_factorize_any_object.
+
+Theorem C16_qr_factorize_object_is_model (S : Scalar) m n rs cs (A : vec S) (o : @qr_obj S) : 0 < Nat.min m n ->
+  obj_factorize m n rs cs A o =
+  (fst (fst (qr_factorize m n rs cs A (vresize (m * n) (o_q o)))),
+   mkQrObj (fst (fst (qr_factorize m n rs cs A (vresize (m * n) (o_q o)))))
+           (snd (fst (qr_factorize m n rs cs A (vresize (m * n) (o_q o)))))
+           (o_f o)
+           (snd (qr_factorize m n rs cs A (vresize (m * n) (o_q o)))) m n rs cs).
+Proof. exact (obj_factorize_eq m n rs cs A o). Qed.
+Print Assumptions C16_qr_factorize_object_is_model.
+
+(* non-vacuity: a 2 x 3 (wide) system solved on an object that has just solved a 3 x 3 system -- its work
+   vector f is longer than the 2 rows of the new system -- gives the solution of a fresh object, (1, 2, 2)/3 * 3,
+   the minimum-norm solution of x0 + 2 x1 + 2 x2 = 9, x1 - x2 = 0 *)
+Example C16_qr_object_reuse_nonvacuous :
+  let A1 : vec QcS := [qc 3 1; qc 0 1; qc 0 1; qc 0 1; qc 4 1; qc 0 1; qc 0 1; qc 0 1; qc 5 1] in
+  let b1 : vec QcS := [qc 7 1; qc 7 1; qc 7 1] in
+  let A2 : vec QcS := [qc 1 1; qc 2 1; qc 2 1; qc 0 1; qc 1 1; qc (-1) 1] in
+  let b2 : vec QcS := [qc 9 1; qc 0 1] in
+  let o1 := snd (obj_solve 3 3 3 1 A1 b1 false qr_new) in
+  length (o_f o1) = 3 /\
+  DirectSpec.vec_eqb (fst (fst (obj_solve 2 3 3 1 A2 b2 false o1))) [qc 1 1; qc 2 1; qc 2 1] = true /\
+  DirectSpec.vec_eqb (fst (fst (obj_solve 2 3 3 1 A2 b2 false qr_new))) [qc 1 1; qc 2 1; qc 2 1] = true.
+Proof. vm_compute. repeat split; reflexivity. Qed.
